@@ -23,6 +23,7 @@ def async_refs_expr(ctx, e, aliases):
 def run(ctx):
     ctx.rule("R10.x", "context-manager model: _batch_call_watchers, batch_call_watchers, discard_events, _syncing and edit_constant interpreted abstractly with the body of the `with` supplied at the `yield` (62 cases: entry state x body ends normally / raises x nesting x queues replaced in the body x Parameter copies made in the body): flag, queues, syncing set and constant flags are, after the block, what they were before; the flush runs iff outermost, after the restore, also when the body raised", floor=1)
     ctx.rule("R10.r", "update-context exit: _ParametersRestorer.__exit__ interpreted abstractly (3 cases) assigns back every recorded previous value -- also one identical to the current value -- and every remembered reference in one update, and forgets the record, also when that update raises", floor=1)
+    ctx.rule("R10.o", "asynchronous results are collected in input order, not in completion order: no function of param collects awaited results through asyncio.as_completed / asyncio.wait (rx.map over a coroutine returns its results in the order of the input whatever order the awaitables finish in)", floor=1)
     ctx.rule("R10.a", "the body of every `with _syncing(...)` contains no suspension point (await / async for / async with / yield)", floor=3)
     ctx.rule("R10.b", "every .cancel() on an async_refs entry deregisters it (async_refs.pop(k).cancel()) or is followed, before the next suspension point, by async_refs[k] = <current task>", floor=2)
     ctx.rule("R10.d", "in _async_ref, on every path from the entry to a suspension point the entry async_refs[pname] is the current task "
@@ -258,6 +259,20 @@ def run(ctx):
     # model-level rule, run last
     from checks.shared import restorer_model
     restorer_model(ctx, "R10.r")
+    n_async = 0
+    bad_o = None
+    for g in ctx.repo.all_funcs("param"):
+        if g.parent is not None:
+            continue          # nested functions are walked with their parent (two nested defs may share one name)
+        n_async += sum(1 for x in ast.walk(g.node) if isinstance(x, ast.AsyncFunctionDef))
+        for c in ast.walk(g.node):
+            if isinstance(c, ast.Call) and norm(c.func) in ("asyncio.as_completed", "as_completed", "asyncio.wait"):
+                bad_o = bad_o or (g, c)
+    if bad_o:
+        ctx.fail("R10.o", bad_o[0], bad_o[1], "`%s` yields the awaitables in the order they finish: the collected results are ordered by completion, not by input" % norm(bad_o[1])[:60],
+                 key="%s::completion-order" % bad_o[0].qualname, input="rx([1, 2, 3]).rx.map(slow_then_fast_coroutine) -> results permuted")
+    else:
+        ctx.ok("R10.o", "param.reactive.reactive_ops.map", None, "%d coroutine functions in param: none collects results in completion order" % n_async)
     from checks import async_model
     async_model.report(ctx, "R10.y")
     from checks import rx_model
